@@ -1,4 +1,5 @@
 """Helpers shared by the rule modules: cached elaboration, definition expansion, role discovery."""
+import os
 from .elab import elaborate, eval_function, Elab
 from .values import *
 from .term import as_disj, key, conj, disj, literal, lkey, litset, support, lin, lin_eq, lin_diff, lin_ge, Lin, subterms, resolve_phi
@@ -49,6 +50,47 @@ class View:
         for l in self.leaves:
             if l.kind in ("assign", "nextvalue") and l.target is not None:
                 self.defs.setdefault(key(l.target), []).append(l)
+        if not os.environ.get("LSA_NO_INLINE"):
+            self._inline_aliases()
+
+    def _inline_aliases(self):
+        alias = {}
+        for k, ds in self.defs.items():
+            if len(ds) != 1 or "." in k:
+                continue
+            l = ds[0]
+            if l.kind != "assign" or l.domain != "comb" or l.guards or l.fsm is not None or l.quants or l.inst != "":
+                continue
+            if not (isinstance(l.target, Obj) and l.target.cls == "Signal"):
+                continue
+            alias[k] = l.value
+
+        def sub(t, dep=0):
+            if dep > 8:
+                return t
+            if isinstance(t, Obj):
+                v = alias.get(key(t))
+                return sub(v, dep + 1) if v is not None else t
+            if isinstance(t, Op):
+                return Op(t.op, tuple(sub(a, dep) for a in t.args))
+            return t
+        import copy
+        new = []
+        self._copy = {}
+        for l in self.d.all_leaves():
+            m = copy.copy(l)
+            self._copy[id(l)] = m
+            m.guards = tuple((sub(c), p) for c, p in l.guards)
+            if l.value is not None and l.kind in ("assign", "nextvalue"):
+                m.value = sub(l.value)
+            if cfg_ok(l.cfg, self.assume):
+                new.append(m)
+        self.leaves = new
+        self.aliases = alias
+        self.defs = {}
+        for l in self.leaves:
+            if l.kind in ("assign", "nextvalue") and l.target is not None:
+                self.defs.setdefault(key(l.target), []).append(l)
 
     def variant(self, **assume):
         a = dict(self.assume)
@@ -83,6 +125,9 @@ class View:
 
     def fsm_leaves(self, f, state=None):
         ls = f.leaves(state)
+        cp = getattr(self, "_copy", None)
+        if cp:
+            ls = [cp.get(id(l), l) for l in ls]
         return [l for l in ls if cfg_ok(l.cfg, self.assume)]
 
     def drivers(self, t):
@@ -314,3 +359,26 @@ def pobj(name, cls="object"):
     o.name = name
     o.provisional = False
     return o
+
+
+def deref(v, t, depth=4):
+    """Follow named wires to the expression they stand for (one unguarded, non-zero comb driver)."""
+    while depth and isinstance(t, (Obj, Sym)) and "." not in key(t):
+        ds = [d for d in v.drivers(t) if d.kind == "assign" and d.domain == "comb" and not d.guards and d.fsm is None and not is0(d.value)]
+        if len(ds) != 1:
+            break
+        t = ds[0].value
+        depth -= 1
+    return t
+
+
+def nkeys(v, lits):
+    """Literal keys with named wires replaced by what they stand for (so a guard reads the same with or without intermediate signals)."""
+    out = set()
+    for a, p in lits:
+        d = deref(v, a)
+        if d is a:
+            out.add(lkey((a, p)))
+        else:
+            out |= nkeys(v, conj(d, p))
+    return out
